@@ -277,6 +277,9 @@ struct Stats {
     guard_match: usize,
     nested_lifted: usize,
     for_each_loops: usize,
+    zip_loops: usize,
+    refpat_for: usize,
+    for_indexed: usize,
 }
 
 struct OpRewriter<'a> {
@@ -343,8 +346,8 @@ impl<'a> VisitMut for LoopMarker<'a> {
         let ph = quote::format_ident!("__VX_LOOP_{}__", k);
         let new: TokenStream = match e {
             syn::Expr::While(w) => {
-                let (label, cond, body) = (&w.label, &w.cond, &w.body);
-                quote!(#label while #cond #ph #body)
+                let (attrs, label, cond, body) = (&w.attrs, &w.label, &w.cond, &w.body);
+                quote!(#(#attrs)* #label while #cond #ph #body)
             }
             syn::Expr::ForLoop(f) => {
                 let (label, pat, expr, body) = (&f.label, &f.pat, &f.expr, &f.body);
@@ -385,6 +388,45 @@ impl<'a> VisitMut for ForDesugar<'a> {
                                 Some(#pat) => #body,
                                 None => break,
                             }
+                        }
+                    });
+                }
+            }
+            return;
+        }
+        syn::visit_mut::visit_expr_mut(self, e);
+    }
+}
+
+/// R19: `for P in E BODY` → `{ let __vx_vK = &(E); let mut __vx_iK: usize = 0; #[verifier::loop_isolation(false)] 'l: while __vx_iK < __vx_vK.len()
+/// { let P = &__vx_vK[__vx_iK]; __vx_iK = __vx_iK + 1; BODY } }` for the listed ordinals (opt-in `r19=0,1`): Verus' `for` has no `continue`.
+/// P now binds a reference also when E was a Vec iterated by value (a body that moves out of P stops compiling → exit 2).
+struct ForIndex<'a> {
+    stats: &'a mut Stats,
+    which: Vec<usize>,
+    next: usize,
+}
+impl<'a> VisitMut for ForIndex<'a> {
+    fn visit_expr_mut(&mut self, e: &mut syn::Expr) {
+        if let syn::Expr::ForLoop(_) = e {
+            let k = self.next;
+            self.next += 1;
+            syn::visit_mut::visit_expr_mut(self, e);
+            if self.which.contains(&k) {
+                if let syn::Expr::ForLoop(f) = e {
+                    let (label, pat, expr) = (&f.label, &f.pat, &f.expr);
+                    let stmts = &f.body.stmts;
+                    let v = quote::format_ident!("__vx_v{}", k);
+                    let i = quote::format_ident!("__vx_i{}", k);
+                    self.stats.for_indexed += 1;
+                    *e = syn::parse_quote!({
+                        let #v = &(#expr);
+                        let mut #i: usize = 0;
+                        #[verifier::loop_isolation(false)]
+                        #label while #i < #v.len() {
+                            let #pat = &#v[#i];
+                            #i = #i + 1;
+                            #(#stmts)*
                         }
                     });
                 }
@@ -707,6 +749,65 @@ impl<'a> VisitMut for ForEachLoop<'a> {
             }
         }
         syn::visit_mut::visit_block_mut(self, b);
+    }
+}
+
+/// R17: `for (a, b) in X.iter().zip(Y) BODY` → `for __vx_zK in 0..vx_zip_len(X.len(), (Y).len()) { let a = &X[__vx_zK]; let b = &(Y)[__vx_zK]; BODY }`
+/// (opt-in; both sides must be indexable by `usize` with `len()`; `Y` is usually `&vec`). Pairs are visited in order up to the shorter length.
+struct ZipLoop<'a> {
+    stats: &'a mut Stats,
+}
+impl<'a> VisitMut for ZipLoop<'a> {
+    fn visit_expr_mut(&mut self, e: &mut syn::Expr) {
+        syn::visit_mut::visit_expr_mut(self, e);
+        if let syn::Expr::ForLoop(f) = e {
+            let mut hit: Option<(syn::Expr, syn::Expr)> = None;
+            if let syn::Expr::MethodCall(z) = &*f.expr {
+                if z.method == "zip" && z.args.len() == 1 {
+                    if let syn::Expr::MethodCall(it) = &*z.receiver {
+                        if it.method == "iter" && it.args.is_empty() {
+                            hit = Some(((*it.receiver).clone(), z.args[0].clone()));
+                        }
+                    }
+                }
+            }
+            if let (Some((x, y)), syn::Pat::Tuple(pt)) = (hit, &*f.pat) {
+                if pt.elems.len() == 2 {
+                    let (pa, pb) = (&pt.elems[0], &pt.elems[1]);
+                    let k = self.stats.zip_loops;
+                    self.stats.zip_loops += 1;
+                    let idx = quote::format_ident!("__vx_z{}", k);
+                    let label = &f.label;
+                    let stmts = &f.body.stmts;
+                    *e = syn::parse_quote!(#label for #idx in 0..vx_zip_len(#x.len(), (#y).len()) {
+                        let #pa = &#x[#idx];
+                        let #pb = &(#y)[#idx];
+                        #(#stmts)*
+                    });
+                }
+            }
+        }
+    }
+}
+
+/// R18: `for &x in E BODY` → `for __vx_rK in E { let x = *__vx_rK; BODY }` (Verus has no ref patterns; always on)
+struct RefPatFor<'a> {
+    stats: &'a mut Stats,
+}
+impl<'a> VisitMut for RefPatFor<'a> {
+    fn visit_expr_mut(&mut self, e: &mut syn::Expr) {
+        syn::visit_mut::visit_expr_mut(self, e);
+        if let syn::Expr::ForLoop(f) = e {
+            if let syn::Pat::Reference(r) = &*f.pat {
+                let inner = (*r.pat).clone();
+                let k = self.stats.refpat_for;
+                self.stats.refpat_for += 1;
+                let id = quote::format_ident!("__vx_r{}", k);
+                let stmts = f.body.stmts.clone();
+                f.pat = Box::new(syn::parse_quote!(#id));
+                f.body = syn::parse_quote!({ let #inner = *#id; #(#stmts)* });
+            }
+        }
     }
 }
 
@@ -1051,6 +1152,16 @@ fn emit_fn(ctx: &mut Ctx, d: &FnDir, out: &mut String) {
     if d.opts.contains_key("r16") {
         ForEachLoop { stats: &mut stats }.visit_block_mut(&mut block);
     }
+    RefPatFor { stats: &mut stats }.visit_block_mut(&mut block);
+    // ---- R17 (opt-in)
+    if d.opts.contains_key("r17") {
+        ZipLoop { stats: &mut stats }.visit_block_mut(&mut block);
+    }
+    // ---- R19 (opt-in)
+    if let Some(w) = d.opts.get("r19") {
+        let which: Vec<usize> = w.split(',').map(|x| x.trim().parse().unwrap()).collect();
+        ForIndex { stats: &mut stats, which, next: 0 }.visit_block_mut(&mut block);
+    }
     // ---- R5 / R6
     LetChain { stats: &mut stats }.visit_block_mut(&mut block);
     if let Some(w) = d.opts.get("desugar_for") {
@@ -1236,6 +1347,8 @@ fn emit_fn(ctx: &mut Ctx, d: &FnDir, out: &mut String) {
     }
     // in-body proof anchors: text inserted after the unique statement line containing the pattern
     for (pat, txt) in &d.anchors {
+        let before = pat.starts_with('\u{1}');
+        let pat = pat.trim_start_matches('\u{1}');
         let patp = pretty(TokenStream::from_str(pat).unwrap_or_else(|_| die("bad anchor pattern")), 0);
         let patp = patp.trim();
         let lines: Vec<&str> = body.lines().collect();
@@ -1245,9 +1358,13 @@ fn emit_fn(ctx: &mut Ctx, d: &FnDir, out: &mut String) {
         }
         let mut nb = String::new();
         for (i, l) in lines.iter().enumerate() {
+            if before && i == hits[0] {
+                nb.push_str(txt.trim_end());
+                nb.push('\n');
+            }
             nb.push_str(l);
             nb.push('\n');
-            if i == hits[0] {
+            if !before && i == hits[0] {
                 nb.push_str(txt.trim_end());
                 nb.push('\n');
             }
@@ -1269,6 +1386,18 @@ fn emit_fn(ctx: &mut Ctx, d: &FnDir, out: &mut String) {
         }
     }
 
+    for (k, v) in &d.opts {
+        if k.starts_with("subopt") {
+            // optional substitution: applied (every occurrence) when the pattern is present, skipped silently otherwise
+            let (from, to) = v.split_once("=>").unwrap_or_else(|| die("suboptN= expects from=>to"));
+            let re = pat_regex(from);
+            let n = re.find_iter(&body).count();
+            if n > 0 {
+                body = re.replace_all(&body, regex::NoExpand(to.trim())).into_owned();
+                subs_done.push(format!("{} => {} ({}x, optional)", from.trim(), to.trim(), n));
+            }
+        }
+    }
     for (k, v) in &d.opts {
         if k.starts_with("suball") {
             let (from, to) = v.split_once("=>").unwrap_or_else(|| die("suballN= expects from=>to"));
@@ -1342,7 +1471,7 @@ fn emit_fn(ctx: &mut Ctx, d: &FnDir, out: &mut String) {
     let (nreq, nens) = count_clauses(&d.spec);
     let ninv: usize = d.loops.values().map(|s| count_clauses(&s.replace("invariant", "ensures")).1).sum();
     let rep = format!(
-        "{{\"kind\":\"fn\",\"name\":{},\"file\":{},\"item\":{},\"closure\":{},\"src_lines\":[{},{}],\"src_hash\":\"{:016x}\",\"attrs_dropped\":{},\"rewrites\":{{\"R1_binops\":{},\"R1_neg\":{},\"R2_rt_params\":{},\"R3_tx_lifted\":{},\"R5_letchains\":{},\"R6_for_desugared\":{},\"R10_optmap_inlined\":{},\"R13_guard_match\":{},\"R14_nested_fn_calls_renamed\":{},\"R16_for_each_loops\":{},\"loops\":{},\"substitutions\":[{}]}},\"clauses\":{{\"requires\":{},\"ensures\":{},\"invariants\":{}}},\"novac\":{}}}",
+        "{{\"kind\":\"fn\",\"name\":{},\"file\":{},\"item\":{},\"closure\":{},\"src_lines\":[{},{}],\"src_hash\":\"{:016x}\",\"attrs_dropped\":{},\"rewrites\":{{\"R1_binops\":{},\"R1_neg\":{},\"R2_rt_params\":{},\"R3_tx_lifted\":{},\"R5_letchains\":{},\"R6_for_desugared\":{},\"R10_optmap_inlined\":{},\"R13_guard_match\":{},\"R14_nested_fn_calls_renamed\":{},\"R16_for_each_loops\":{},\"R17_zip_loops\":{},\"R18_ref_pattern_for\":{},\"R19_for_indexed\":{},\"loops\":{},\"substitutions\":[{}]}},\"clauses\":{{\"requires\":{},\"ensures\":{},\"invariants\":{}}},\"novac\":{}}}",
         json_str(&qual),
         json_str(&d.file),
         json_str(&d.path),
@@ -1361,6 +1490,9 @@ fn emit_fn(ctx: &mut Ctx, d: &FnDir, out: &mut String) {
         stats.guard_match,
         stats.nested_lifted,
         stats.for_each_loops,
+        stats.zip_loops,
+        stats.refpat_for,
+        stats.for_indexed,
         stats.loops,
         subs_done.iter().map(|s| json_str(s)).collect::<Vec<_>>().join(","),
         nreq,
@@ -1674,9 +1806,10 @@ fn process_text(ctx: &mut Ctx, tpl: &str, out: &mut String, depth: usize) {
                                     sec = Sec::Loop(k)
                                 }
                                 Some("spec") => sec = Sec::Spec,
-                                Some("after") => {
-                                    // //@ after "<substring of exactly one statement line>"
-                                    let pat = w2.get(1).cloned().unwrap_or_else(|| die("after needs a pattern"));
+                                Some("after") | Some("before") => {
+                                    // //@ after|before "<substring of exactly one statement line>"
+                                    let pat = w2.get(1).cloned().unwrap_or_else(|| die("after/before needs a pattern"));
+                                    let pat = if w2.first().map(|s| s.as_str()) == Some("before") { format!("\u{1}{}", pat) } else { pat };
                                     d.anchors.push((pat, String::new()));
                                     sec = Sec::After(d.anchors.len() - 1)
                                 }
